@@ -50,6 +50,12 @@ class C09(Property):
              ("antismash/common/secmet/features/cds_feature.py", "CDSFeature.from_biopython"),
              ("antismash/common/secmet/features/feature.py", "Feature.to_biopython"),
              ("antismash/common/secmet/features/prepeptide.py", "Prepeptide.to_biopython"),
+             ("antismash/common/secmet/features/prepeptide.py", "Prepeptide.from_biopython"),
+             ("antismash/common/secmet/features/prepeptide.py", "Prepeptide.to_json"),
+             ("antismash/common/secmet/features/prepeptide.py", "Prepeptide.from_json"),
+             ("antismash/common/secmet/features/prepeptide.py", "_combine_sections"),
+             (LOC_PY, "build_location_from_others"),
+             (LOC_PY, "location_from_string"),
              ("antismash/modules/tta/tta.py", "TTAResults.new_feature_from_other"),
              ("antismash/modules/tta/tta.py", "TTAResults.new_feature_from_location"),
              ("antismash/modules/tta/tta.py", "TTAResults.to_json"),
@@ -210,6 +216,13 @@ class C09(Property):
             ld = rng.choice([0, 0, 1, 2, aa // 2, aa - 1, aa] + [b // 3 for b in self.borders(loc)])
             tl = rng.choice([0, 0, 1, 2, aa - ld - 1, aa - ld, max(aa - ld - 2, 0)])
             yield dict(base, kind="prepeptide", leader=max(ld, 0), tail=max(tl, 0))
+            # written out and re-read (results reuse / GenBank): mostly valid splits, sections ending on exon borders
+            if aa >= 1:
+                ld2 = rng.choice([0, 1, aa // 3, aa // 2] + [b // 3 for b in self.borders(loc)[:-1]])
+                ld2 = min(max(ld2, 0), aa - 1)
+                tl2 = rng.choice([0, 1, (aa - ld2) // 2, aa - ld2 - 1] + [aa - b // 3 for b in self.borders(loc)[:-1]])
+                tl2 = min(max(tl2, 0), aa - ld2 - 1) if rng.random() < 0.95 else aa - ld2
+                yield dict(base, kind="prepeptide_rt", leader=ld2, tail=tl2)
             if rng.random() < 0.35 and loc["parts"][0][2] in (1, -1):
                 s, e = self.rand_range(rng, loc, 3)
                 yield dict(base, kind=rng.choice(["motif", "domain"]), s=s, e=e, dna=self.without_stops(loc, dna))
@@ -278,6 +291,9 @@ class C09(Property):
                         for tl in range(0, aa + 1 - ld):
                             total_cases += 1
                             yield dict(base, kind="prepeptide", leader=ld, tail=tl)
+                            if ld + tl < aa:
+                                total_cases += 1
+                                yield dict(base, kind="prepeptide_rt", leader=ld, tail=tl)
                     if aa:
                         total_cases += 1
                         yield dict(base, kind="convert", s=rng.randrange(0, aa), e=aa)
@@ -358,6 +374,8 @@ class C09(Property):
                 if case["tail"]:
                     out["tail"] = describe(feats.pop(0).location)
                 out["extra"] = len(feats)
+            elif kind == "prepeptide_rt":
+                out.update(self._run_prepeptide_rt(case, location, describe))
             elif kind == "tta":
                 from antismash.modules.tta.tta import TTAResults
                 results = TTAResults("rec", 1.0, 0.5)
@@ -372,6 +390,32 @@ class C09(Property):
                 raise ValueError(f"unknown kind {kind}")
         except Exception as exc:  # pylint: disable=broad-except
             out.update(_err(exc))
+        return out
+
+    @staticmethod
+    def _run_prepeptide_rt(case: Dict[str, Any], location: Any, describe: Any) -> Dict[str, Any]:
+        """Prepeptide → to_biopython → Prepeptide.from_biopython(core feature) → to_biopython again
+           (what happens when results are reused or a GenBank output is read back), plus the JSON form"""
+        import json as _json
+        from antismash.common.secmet.features import prepeptide as pmod
+        out: Dict[str, Any] = {"repaired": hasattr(pmod, "_combine_sections")}
+        pre = pmod.Prepeptide(location, "lanthipeptide", "C", "locus", "tool", peptide_subclass="Class I",
+                              score=1.5, leader="L" * case["leader"], tail="T" * case["tail"])
+        first = list(pre.to_biopython())
+        core = [f for f in first if f.qualifiers["prepeptide"] == ["core"]][0]
+        rebuilt = pmod.Prepeptide.from_biopython(core)
+        out["rebuilt"] = common.location_json(rebuilt.location)
+        out["sequences_kept"] = (rebuilt.leader, rebuilt.core, rebuilt.tail) == (pre.leader, pre.core, pre.tail)
+        second = list(rebuilt.to_biopython())
+        if case["leader"]:
+            out["leader"] = describe(second.pop(0).location)
+        out["core"] = describe(second.pop(0).location)
+        if case["tail"]:
+            out["tail"] = describe(second.pop(0).location)
+        out["extra"] = len(second)
+        out["rebuilt_desc"] = describe(rebuilt.location)
+        again = pmod.Prepeptide.from_json(_json.loads(_json.dumps(pre.to_json())))
+        out["json_same"] = common.location_json(again.location) == case["loc"]
         return out
 
     @staticmethod
@@ -478,6 +522,11 @@ class C09(Property):
             line.update(kind="frameshift", cs=case["cs"], undo=case["undo"], impl=obs.get("loc"))
         elif kind == "prepeptide":
             line.update(kind="prepeptide", leader=case["leader"], tail=case["tail"],
+                        impl_leader=(obs.get("leader") or {}).get("loc"), impl_core=(obs.get("core") or {}).get("loc"),
+                        impl_tail=(obs.get("tail") or {}).get("loc"))
+        elif kind == "prepeptide_rt":
+            line.update(kind="prepeptide_rt", leader=case["leader"], tail=case["tail"],
+                        repaired=bool(obs.get("repaired")), impl_rebuilt=obs.get("rebuilt"),
                         impl_leader=(obs.get("leader") or {}).get("loc"), impl_core=(obs.get("core") or {}).get("loc"),
                         impl_tail=(obs.get("tail") or {}).get("loc"))
         elif kind == "tta":
@@ -599,6 +648,53 @@ class C09(Property):
                     spec_ok = joined == obs["gene_extract"][:len(obs["gene_extract"]) // 3 * 3]
             else:
                 spec_ok = impl_err is not None
+        elif kind == "prepeptide_rt":
+            known = None
+            sound = bool(drv["sound"]) or bool(obs.get("repaired"))
+            tags.append("repaired-tree" if obs.get("repaired") else "unrepaired-tree")
+            if impl_err is not None:
+                corr = impl_err == model.get("err")
+                spec_ok = not guard
+                if guard and drv["unrepresentable"] and impl_err == "value-error":
+                    # the rebuilt location has two exons ending at the same coordinate: no Feature can hold it
+                    spec_ok = True
+                    tags.append("unrepresentable-refused")
+            else:
+                mo, m2 = model.get("ok"), (drv["model2"] or {}).get("ok")
+                if obs["repaired"]:
+                    corr = mo is not None and obs["rebuilt"] == mo      # exact part structure with D107
+                else:                                                   # unrepaired: part structure is C10's business
+                    corr = mo is not None and self.py_bases(obs["rebuilt"]) == drv["model_bases"] \
+                        and {p[2] for p in obs["rebuilt"]["parts"]} == {p[2] for p in mo["parts"]}
+                if corr:
+                    corr = m2 is not None and obs["extra"] == 0 and all(
+                        (self.py_bases(obs[k]["loc"]) if k in obs else None)
+                        == (self.py_bases(m2[k]) if m2[k] is not None else None) for k in ("leader", "core", "tail"))
+                sl = spec["slices"]
+                want = transcribed(loc, case["dna"], spec["expected"])
+                spec_ok = guard and spec["rebuilt"] is True and obs["rebuilt_desc"]["extract"] == want \
+                    and obs["sequences_kept"] and obs["json_same"]
+                if not spec_ok:
+                    detail = (f"prepeptide at {loc['parts']} (leader {case['leader']}, tail {case['tail']}) comes back from "
+                              f"to_biopython -> from_biopython at {obs['rebuilt']['parts']}: not the gene's coding bases")
+                for key, idx in (("leader", 0), ("core", 1), ("tail", 2)):
+                    if spec_ok and (key == "core" or case[key]):
+                        spec_ok = spec[key] is True and key in obs \
+                            and obs[key]["extract"] == transcribed(loc, case["dna"], sl[idx])
+                        if not spec_ok:
+                            detail = (f"after to_biopython -> from_biopython the {key} is placed at "
+                                      f"{(obs.get(key) or {}).get('loc')}, which is not bases {sl[idx][:3]}.. of the gene")
+                if not spec_ok and not sound:
+                    known = "KF-C09-prepeptide-false-merge"
+            if not scope:
+                spec_ok = True
+            if not corr and not detail:
+                detail = f"model {model} / {drv['model2']} vs implementation {obs}"
+            nontrivial = guard and scope and impl_err is None and (multi or drv["bridges"]) \
+                and bool(case["leader"] or case["tail"])
+            tags.append("sound" if sound else "false-merge-class")
+            return Judgement(corr, spec_ok, in_scope=scope and sound, known=known, nontrivial=nontrivial,
+                             tags=tuple(tags), detail=detail)
         else:
             return Judgement(False, True, detail=f"unknown kind {kind}")
         if kind == "tta" and impl_err is None and obs.get("json_rt") is not True:
